@@ -52,6 +52,17 @@ type mcase struct {
 	Stdin string   `json:"stdin"` // bytes on standard input
 	// not serialised
 	outCap int64
+	regen  bool // ladder: the label carries (cfg,size) only; the orchestrator regenerates the text
+}
+
+// label is what the pool shows when the worker dies in this case.
+func (m *mcase) label() string {
+	if m.regen {
+		b, _ := json.Marshal(&mcase{Fam: m.Fam, Cfg: m.Cfg, Size: m.Size, Desc: m.Desc})
+		return string(b)
+	}
+	b, _ := json.Marshal(m)
+	return string(b)
 }
 
 func (m *mcase) keyTail() string {
@@ -275,7 +286,7 @@ type outcome struct {
 // run executes one case in-process and applies the oracle.
 func (x *runner) run(m *mcase) outcome {
 	if x.only {
-		x.w.Label(func() string { b, _ := json.Marshal(m); return string(b) })
+		x.w.Label(m.label)
 	}
 	max := m.outCap
 	if max == 0 {
@@ -294,7 +305,7 @@ func (x *runner) run(m *mcase) outcome {
 	case r.Panic != "":
 		oc.class = ocPanic
 		site := panicSite(r.Stack)
-		g := "panic[" + site + "]"
+		g := "panic[" + strings.ReplaceAll(site, ":", "#") + "]"
 		rp := replay()
 		rp["panic"] = r.Panic
 		rp["stack"] = short(r.Stack, 3000)
@@ -311,7 +322,7 @@ func (x *runner) run(m *mcase) outcome {
 	case r.Exit != 0:
 		if mm := iceRe.FindStringSubmatch(r.Stderr); mm != nil {
 			oc.class = ocICE
-			g := "internal-coding-error[" + mm[1] + ":" + mm[2] + "]"
+			g := "internal-coding-error[" + mm[1] + "#" + mm[2] + "]"
 			rp := replay()
 			rp["stderr"] = short(r.Stderr, 600)
 			what := fmt.Sprintf("aborts with %q (no `mlr:` error); reproduce: %s", strings.TrimSpace(short(r.Stderr, 160)), m.shell())
@@ -494,9 +505,13 @@ func run(c *vf.Ctx) {
 		} else if strings.HasPrefix(kind, "exit:") {
 			cause = "worker-died:" + strings.ReplaceAll(strings.TrimPrefix(kind, "exit:"), " ", "-")
 		}
+		cause = strings.NewReplacer(":", "#", "(", "", ")", "").Replace(cause)
 		c.Exhaustive = false
 		c.Count("blocks_cut_short_by_worker_death", 1)
-		if json.Unmarshal([]byte(label), &m) != nil {
+		if json.Unmarshal([]byte(label), &m) == nil && m.Fam == "ladder" && len(m.Args) == 0 {
+			regenLadder(&m)
+		}
+		if json.Unmarshal([]byte(label), &mcase{}) != nil {
 			return fmt.Sprintf("crash[%s]:99999:unlabelled:case-index-%d", cause, idx), fmt.Sprintf("worker %s at case %d (no label): %s", kind, idx, short(tail, 400))
 		}
 		to := 60 * time.Second
@@ -549,8 +564,6 @@ func run(c *vf.Ctx) {
 	}
 	_ = t0
 
-	c.DistinctNontrivial = c.Counters["nontrivial"]
-	delete(c.Counters, "nontrivial")
 	for _, name := range []string{"reader-outcomes", "func-outcomes", "dsl-outcomes", "ladder-outcomes", "bare-error-texts", "func-vacuous-check"} {
 		if m := sets[name]; m != nil {
 			var l []string
